@@ -311,6 +311,14 @@ def edate_case(draw):
         if 1900 <= sy <= 9999:
             dd = draw(st.sampled_from([28, 29, 30, 31]))
             d = datetime.date(sy, sm, min(dd, rd.month_len(sy, sm)))
+    elif draw(st.integers(0, 6)) == 0:
+        # the longest moves there are: from a month of 1900 to a month of 9999, or back
+        sm, tm, dd = draw(st.integers(1, 12)), draw(st.integers(1, 12)), draw(st.sampled_from([1, 15, 28, 29, 30, 31]))
+        k = (9999 - 1900) * 12 + tm - sm
+        if draw(st.booleans()):
+            d = datetime.date(1900, sm, min(dd, rd.month_len(1900, sm)))
+        else:
+            d, k = datetime.date(9999, tm, min(dd, rd.month_len(9999, tm))), -k
     return {'o': d.toordinal(), 'k': k, 'style': draw(st.sampled_from(['lit', 'var', 'iso'])), 'kvar': draw(st.booleans())}
 
 
